@@ -45,10 +45,10 @@ Definition tdecls : list (name * list name) := [(bProduct, [bid]); (bMaker, [bid
    real plan: root fetch on 0:            { product { name __typename id } }
               entity fetch at product on 1:        ... on Product { __typename price maker { title __typename id } }
               entity fetch at product.maker on 2:  ... on Maker { __typename rating }      (depends on the previous fetch) *)
-Definition pt_maker : ptree := PT [(0%nat, PKeep (fld btitle [])); (1%nat, PKeep (fld brating []))] [(0%nat, 2%nat, [bid])].
+Definition pt_maker : ptree := PT [(0%nat, PKeep (fld btitle [])); (1%nat, PKeep (fld brating []))] [([(0%nat, [bid])], 2%nat, [bid])].
 Definition pt_product : ptree :=
   PT [(0%nat, PKeep (fld bname [])); (1%nat, PKeep (fld bprice []));
-      (1%nat, PDown None bmaker [] (ShObj false) bMaker pt_maker)] [(0%nat, 1%nat, [bid])].
+      (1%nat, PDown None bmaker [] (ShObj false) bMaker pt_maker)] [([(0%nat, [bid])], 1%nat, [bid])].
 Definition ds3_0 : list rfield3 := [{| r3_root := 0%nat; r3_item := PDown None bproduct [] (ShObj false) bProduct pt_product |}].
 
 Example ex_tv3_accepts : tv3_static_b T0 tsubs [] [] [] 8 tdecls [] 8 ds3_0 = true.
@@ -78,12 +78,12 @@ Example ex_tv3_run :
 Proof. split; vm_compute; reflexivity. Qed.
 
 (* a tree whose nested fetch asks the wrong subgraph is rejected *)
-Definition pt_maker_bad : ptree := PT [(0%nat, PKeep (fld btitle [])); (1%nat, PKeep (fld brating []))] [(0%nat, 1%nat, [bid])].
+Definition pt_maker_bad : ptree := PT [(0%nat, PKeep (fld btitle [])); (1%nat, PKeep (fld brating []))] [([(0%nat, [bid])], 1%nat, [bid])].
 Definition ds3_bad : list rfield3 :=
   [{| r3_root := 0%nat;
       r3_item := PDown None bproduct [] (ShObj false) bProduct
                        (PT [(0%nat, PKeep (fld bname [])); (1%nat, PKeep (fld bprice []));
-                            (1%nat, PDown None bmaker [] (ShObj false) bMaker pt_maker_bad)] [(0%nat, 1%nat, [bid])]) |}].
+                            (1%nat, PDown None bmaker [] (ShObj false) bMaker pt_maker_bad)] [([(0%nat, [bid])], 1%nat, [bid])]) |}].
 Example ex_tv3_rejects : tv3_static_b T0 tsubs [] [] [] 8 tdecls [] 8 ds3_bad = false.
 Proof. vm_compute. reflexivity. Qed.
 
@@ -91,4 +91,59 @@ Example tv3_sound_applies : forall F, (ds_need T0 ds3_0 <= F)%nat ->
   sres_weq (gateway3 TU T0 tsubs [] [] [] t_root F F true 8 ds3_0) (mono_client3 TU T0 [] [] [] t_root F ds3_0).
 Proof.
   intros F HF. apply (tv3_sound T0 tsubs [] [] 8 tdecls [] true 8 ds3_0 ex_tv3_accepts TU t_root ex_tv3_contract eq_refl F HF).
+Qed.
+
+(* ---- the root __typename (resolved by the gateway itself: root index = number of subgraphs, no request) and an entity
+        fetch that reads its representation off TWO earlier sources (key from the root fetch, @requires input from another
+        entity fetch), on the configuration of Examples.v split over three subgraphs ---- *)
+Definition SA : schema := S1.
+Definition SB : schema := mk_schema [objt bQuery []; objt bProduct [fdef bid (TNonNull (TNamed bID)); fdef bprice (TNamed bInt)]].
+Definition SC : schema := mk_schema [objt bQuery []; objt bProduct [fdef bid (TNonNull (TNamed bID)); fdef bshipping (TNamed bString)]].
+Definition subs3 : list schema := [SA; SB; SC].
+Definition rdecls3 : list rdecl := [(bProduct, bshipping, [bprice])].
+
+(* client:  { __typename product { name shipping } }
+   real plan: root fetch on 0:  { product { name __typename id } }
+              entity fetch on 1 (representation {__typename id} off the root fetch):    ... on Product { __typename price }
+              entity fetch on 2 (representation {__typename price id}: price off the fetch on 1, id off the root fetch):
+                                                                                       ... on Product { __typename shipping } *)
+Definition pt_req : ptree :=
+  PT [(0%nat, PKeep (fld bname [])); (2%nat, PKeep (fld bshipping []))]
+     [([(0%nat, [bid])], 1%nat, [bid]); ([(1%nat, [bprice]); (0%nat, [bid])], 2%nat, [bprice; bid])].
+Definition ds3_req : list rfield3 :=
+  [{| r3_root := 3%nat; r3_item := PKeep (fld s_typename []) |};
+   {| r3_root := 0%nat; r3_item := PDown None bproduct [] (ShObj false) bProduct pt_req |}].
+
+Example ex_tv3_req_accepts : tv3_static_b S0 subs3 [] [] [] 8 decls0 rdecls3 8 ds3_req = true.
+Proof. vm_compute. reflexivity. Qed.
+Example ex_tv3_req_contract : univ3_contract_b S0 subs3 decls0 rdecls3 U0 = true.
+Proof. vm_compute. reflexivity. Qed.
+Example ex_tv3_req_requests :
+  model_requests3s 3 [] [] true ds3_req =
+  [MRoot3 0 (query_doc [] [fld bproduct ([fld bname []] ++ key_sels [bid; bid])] []);
+   MEntity3 [bproduct] 1 (entities_doc [rep_vd] bProduct (key_sels [bprice]) []) [s_typename; bid];
+   MEntity3 [bproduct] 2 (entities_doc [rep_vd] bProduct [tn_sel; fld bshipping []] []) [s_typename; bprice; bid]].
+Proof. vm_compute. reflexivity. Qed.
+Example ex_tv3_req_run :
+  gateway3 U0 S0 subs3 [] [] [] e_root 200 200 true 8 ds3_req = mono_client3 U0 S0 [] [] [] e_root 200 ds3_req /\
+  fst (mono_client3 U0 S0 [] [] [] e_root 200 ds3_req) <> None /\ snd (mono_client3 U0 S0 [] [] [] e_root 200 ds3_req) = [].
+Proof. vm_compute. split; [reflexivity|]. split; [discriminate|reflexivity]. Qed.
+
+(* the @requires input taken off a source that was not asked for it: rejected *)
+Definition ds3_req_bad : list rfield3 :=
+  [{| r3_root := 0%nat;
+      r3_item := PDown None bproduct [] (ShObj false) bProduct
+                       (PT [(0%nat, PKeep (fld bname [])); (2%nat, PKeep (fld bshipping []))]
+                           [([(0%nat, [bid])], 1%nat, [bid]); ([(0%nat, [bid])], 2%nat, [bprice; bid])]) |}].
+Example ex_tv3_req_rejects : tv3_static_b S0 subs3 [] [] [] 8 decls0 rdecls3 8 ds3_req_bad = false.
+Proof. vm_compute. reflexivity. Qed.
+(* a root field other than __typename "resolved by the gateway itself": rejected *)
+Example ex_tv3_static_root_rejects :
+  tv3_static_b S0 subs3 [] [] [] 8 decls0 rdecls3 8 [{| r3_root := 3%nat; r3_item := PKeep (fld bproduct [fld bname []]) |}] = false.
+Proof. vm_compute. reflexivity. Qed.
+
+Example tv3_sound_applies_req : forall F, (ds_need S0 ds3_req <= F)%nat ->
+  sres_weq (gateway3 U0 S0 subs3 [] [] [] e_root F F true 8 ds3_req) (mono_client3 U0 S0 [] [] [] e_root F ds3_req).
+Proof.
+  intros F HF. apply (tv3_sound S0 subs3 [] [] 8 decls0 rdecls3 true 8 ds3_req ex_tv3_req_accepts U0 e_root ex_tv3_req_contract eq_refl F HF).
 Qed.
